@@ -13,18 +13,20 @@ def XRBlock.scalars (b : XRBlock) : List Nat := [b.bt, b.ts, b.bl] ++ b.vals
 
 def XRBlock.wireSize (b : XRBlock) : Nat := sizeItems (layoutOf b.kind).items b.elems
 
-/-- `setupBlockHeader`, by dynamic type -/
-def XRBlock.setup (b : XRBlock) : XRBlock :=
-  let bl := (b.wireSize / 4 + 65535) % 65536          -- uint16(wireSize/4 - 1)
+/-- `setupBlockHeader`, by dynamic type: block type, type-specific octet, block length -/
+def XRBlock.setupBt (b : XRBlock) : Nat := if 1 ≤ b.kind ∧ b.kind ≤ 7 then b.kind else b.bt
+
+def XRBlock.setupTs (b : XRBlock) : Nat :=
   match b.kind with
-  | 1 | 2 | 3 => { b with bt := b.kind, ts := b.omits.headD 0 % 16, bl := bl }
-  | 4 | 5 | 7 => { b with bt := b.kind, ts := 0, bl := bl }
+  | 1 | 2 | 3 => b.omits.headD 0 % 16                 -- T & 0x0F
+  | 4 | 5 | 7 => 0
   | 6 =>
     let g (i : Nat) := b.omits.getD i 0
-    { b with bt := 6,
-             ts := (if g 0 ≠ 0 then 128 else 0) + (if g 1 ≠ 0 then 64 else 0) + (if g 2 ≠ 0 then 32 else 0) + (g 3 % 4) * 8,
-             bl := bl }
-  | _ => { b with bl := bl }
+    (if g 0 ≠ 0 then 128 else 0) + (if g 1 ≠ 0 then 64 else 0) + (if g 2 ≠ 0 then 32 else 0) + (g 3 % 4) * 8
+  | _ => b.ts                                          -- UnknownReportBlock keeps its octet
+
+def XRBlock.setup (b : XRBlock) : XRBlock :=
+  { b with bt := b.setupBt, ts := b.setupTs, bl := (b.wireSize / 4 + 65535) % 65536 }   -- uint16(wireSize/4 - 1)
 
 /-- `unpackBlockHeader`, by dynamic type -/
 def XRBlock.unpack (b : XRBlock) : XRBlock :=
@@ -102,9 +104,7 @@ def XR.decP (b : Bytes) : XR × Status :=
         ({ sender := get32 body 0, blocks := bs }, st)
   | o => ({}, o.status)
 
-def XR.dec (b : Bytes) : Out XR :=
-  let (x, st) := XR.decP b
-  st.toOut x
+def XR.dec (b : Bytes) : Out XR := (XR.decP b).2.toOut (XR.decP b).1
 
 /-- `DestinationSSRC` of a block, by dynamic type -/
 def XRBlock.dest (b : XRBlock) : List Nat :=
